@@ -209,7 +209,11 @@ def judgeTamper (inp : Json) : List String :=
     if ir == 0 then [] else
       (blame.filter fun (_, b) => (((jstr b "err").splitOn s!"round {ir}:").length ≤ 1)).map fun (who, b) =>
         s!"honest party {who} accepted in round {ir} a proof made by another party (the replayed broadcast was only refused later: {jstr b "err"})"
-  whyResult ++ whyBlame ++ whyClean ++ whyIdent ++ whyImp
+  -- C06: under equivocation (the honest parties were shown different broadcasts) they do not both finish
+  let whyEquiv :=
+    if jbool inp "equivocated" && (jarr inp "parties").length ≥ 2 then
+      ["two honest parties that were shown different broadcasts of the deviating party both finished"] else []
+  whyResult ++ whyBlame ++ whyClean ++ whyIdent ++ whyImp ++ whyEquiv
 
 def verdict (why : List String) : Json :=
   if why.isEmpty then jobj [("ok", true)] else jobj [("ok", false), ("why", Json.arr (why.map Json.str).toArray)]
